@@ -1188,9 +1188,8 @@ impl<T, L: Clone + Layout> TensorBase<Vec<T>, L> {
     {
         let mut new_layout = self.layout.clone();
         new_layout.resize_dim(axis, new_size);
-        let new_data_len = new_layout.min_data_len();
-
-        let has_capacity = new_data_len <= self.data.capacity()
+        let has_capacity = checked_min_data_len(&new_layout)
+            .is_some_and(|new_data_len| new_data_len <= self.data.capacity())
             && !may_have_internal_overlap(new_layout.shape(), new_layout.strides());
 
         has_capacity.then_some(new_layout)
